@@ -129,6 +129,10 @@ func d4sPrograms() []*Prog {
 		{capt(a, "x"), sub("s", ref("x"), loop(0, 1, false, call("s"))), b},
 		{loop(0, -1, false, seq(sub("s", capt(or(a, b), "x")))), ref("x")},
 		{sub("s", or(seq(capt(a, "x"), b), seq(a, a))), loop(0, 1, false, ref("x"))},
+		{sub("r", capt(seq(a, loop(0, 1, false, call("r")), b), "x"))},
+		{sub("r", capt(seq(a, loop(0, 1, false, call("r")), b), "x")), ref("x")},
+		{sub("r", a, capt(seq(loop(0, 1, false, call("r"))), "x"), b), loop(0, 1, false, ref("x"))},
+		{sub("r", capt(or(b, seq(a, call("r"))), "x")), a, ref("x")},
 	}
 	for _, bd := range bodies {
 		out = append(out, &Prog{Body: bd})
